@@ -97,6 +97,10 @@ def gen_netlist(rng: random.Random, s: float, defect: bool, L: int = 10, termina
         dims.append(math.sqrt(sum(w * h for (_, _, w, h) in rs)))
     for i in range(rng.choice([0, 0, 1, 2]) if terminals else 0):
         mods.append(f"  T{i}: {{terminal: true, center: [{fmt(rng.randint(0, 4 * L) / L * s)}, {fmt(rng.randint(0, 4 * L) / L * s)}]}}")
+    if rng.random() < 0.15:
+        # names that YAML 1.1 (but not 1.2) reads as booleans: legal identifiers, must stay strings whatever was loaded before
+        ren = dict(zip(["S0", "S1", "S2", "H0", "H1"], rng.sample(["N", "Y", "S", "E", "W", "yes", "no", "on", "off", "ON", "No"], 5)))
+        mods = [ren.get(m.split(":")[0].strip(), m.split(":")[0].strip()).join(["  ", ":" + m.split(":", 1)[1]]) for m in mods]
     names = [m.split(":")[0].strip() for m in mods]
     nets = []
     for _ in range(rng.randint(1, 3)):
@@ -105,6 +109,8 @@ def gen_netlist(rng: random.Random, s: float, defect: bool, L: int = 10, termina
         w = rng.choice([None, 2, 0.5])
         nets.append("[" + ", ".join(mem + ([fmt(w)] if w else [])) + "]")
     text = "Modules: {\n" + ",\n".join(mods) + "\n}\nNets: [" + ", ".join(nets) + "]\n"
+    if rng.random() < 0.12:
+        text = "%YAML 1.1\n---\n" + text      # a legal document header; must not change how LATER documents are read
     return {"kind": "netlist", "scale": s, "text": text, "rects": rects_all, "proposal": min(dims) * K_NET}
 
 
@@ -157,6 +163,25 @@ def gen_alloctext(rng: random.Random, s: float, defect: bool, L: int = 10) -> di
 
 
 def gen_sat(rng: random.Random, s: float, defect: bool, L: int = 10) -> dict:
+    if rng.random() < 0.5:
+        # "rect-like" problems: weighted at-least constraints over 4-8 block variables with area-sized coefficients
+        # (deep diagrams with many shared sub-diagrams, as tools/rect posts them)
+        nv = rng.randint(3, 8)
+        vs = [f"b_{i}" for i in range(nv)]
+        areas = [rng.randint(1, 9) for _ in range(nv)]
+        if rng.random() < 0.5:
+            areas.sort(reverse=True)
+        num, den = rng.randint(1, 8), rng.randint(1, 3)
+        tot = sum(areas)
+        # the three constraints tools/rect posts for one module: at least one block, minimum selected area, and
+        # selected_area * den - num * (number of blocks) >= 0  (mixed-sign coefficients -> both polarities after normalisation)
+        cons = [{"terms": [(1, v, False) for v in vs], "op": ">=", "rhs": 1, "decomp": False},
+                {"terms": [(a, v, False) for a, v in zip(areas, vs)], "op": ">=", "rhs": rng.randint(1, max(1, tot - 1)), "decomp": False},
+                {"terms": [(a * den - num, v, False) for a, v in zip(areas, vs) if a * den - num != 0] or [(1, vs[0], False)],
+                 "op": ">=", "rhs": 0, "decomp": False}]
+        if rng.random() < 0.3:
+            cons = cons[1:]
+        return {"kind": "sat", "scale": s, "vars": vs, "cons": cons, "amo": [], "k": 3}
     vs = ["a", "b", "c", "d", "e"][: rng.randint(2, 5)]
     cons = []
     for _ in range(rng.randint(1, 4)):
@@ -343,6 +368,8 @@ def run_legal(d: dict):
 def child(task):
     """runs in a fresh forked interpreter."""
     hist, probe = task
+    import warnings
+    warnings.simplefilter("ignore")
     from frame.geometry.geometry import Rectangle
     import io
     import contextlib
@@ -480,6 +507,9 @@ def make_task(rng: random.Random, ctx: Ctx):
             twin["thr"] = rng.choice([0.3, 0.6, 0.9])
         twin.pop("proposal", None) if False else None
         hist.insert(rng.randint(0, len(hist)), twin)
+    if kind == "sat" and probe["vars"] and probe["vars"][0].startswith("b_"):
+        for _ in range(rng.randint(1, 3)):
+            hist.insert(rng.randint(0, len(hist)), gen_sat(rng, s, False, L))   # half of these are rect-like again
     if kind == "sat" and rng.random() < 0.6:
         # an earlier manager that encoded (some of) the very same constraints: shares ROBDD nodes with the probe
         twin = dict(probe)
@@ -493,6 +523,22 @@ def make_task(rng: random.Random, ctx: Ctx):
         twin["cons"] = cons
         twin["vars"] = sorted(set(probe["vars"]) | {"e"})
         hist.insert(rng.randint(0, len(hist)), twin)
+    if kind == "sat" and rng.random() < 0.6:
+        # cofactors of the probe's constraints encoded earlier: their diagrams become OLDER shared sub-diagrams of the probe's
+        cof = dict(probe)
+        cs = []
+        for c in probe["cons"]:
+            if len(c["terms"]) >= 2:
+                k = max(range(len(c["terms"])), key=lambda i: abs(c["terms"][i][0])) if rng.random() < 0.7 else rng.randrange(len(c["terms"]))
+                d2 = dict(c)
+                d2["terms"] = [t for i, t in enumerate(c["terms"]) if i != k]
+                co = c["terms"][k][0]
+                d2["rhs"] = c["rhs"] - (co if rng.random() < 0.5 else 0)
+                cs.append(d2)
+        if cs:
+            cof["cons"] = cs
+            cof["amo"] = []
+            hist.insert(rng.randint(0, len(hist)), cof)
     return hist, probe
 
 
